@@ -263,6 +263,16 @@ def check_routes(case, work):
         attempt('path-ext-case', lambda: to_path(e_spelled))
     if kind == 'svg':
         attempt('svgz', lambda: to_path('svgz'))
+
+        def svgz_stream(k):
+            def f():
+                buf = io.BytesIO()
+                qr.save(buf, kind=k, **kw)
+                return gzip.decompress(buf.getvalue())
+            return f
+        attempt('svgz-stream', svgz_stream('svgz'))
+        if spell & 3:
+            attempt('svgz-stream-kind-case', svgz_stream('SVGZ' if spell & 1 else 'Svgz'))
     if kind == 'png':
         def uri():
             u = qr.png_data_uri(**kw)
